@@ -22,7 +22,8 @@ let run (c : string) (obs : string) : string * string * string =
   let old_mode old = match old with "1" -> "640" | _ -> "0" in
   if String.contains trace '?' then add "kind=unexpected-call-on-destination-or-non-exclusive-temp";
   if obs = "HANG" then add "kind=hang";
-  match words c with
+  let cw = List.filter (fun w -> w <> "rel" && w <> "dot") (words c) in
+  match cw with
   | ["wf"; old; m; fail; sz] ->
     let sizes = ints sz in
     let total = List.fold_left (+) 0 sizes in
